@@ -1451,3 +1451,65 @@ func checkTxOpenerRegistered(c *Ctx, rule string) {
 		c.Unresolved(rule, "sqlclient.Register calls in sql/sqlite (fewer than 2)")
 	}
 }
+
+// R01q: every column attribute the writer consults is compared by the differ.
+const ruleTextColumnAttrCoverage = "writer/differ agreement on column attributes (SQLite): every attribute type the planner's column writer consults with sqlx.Has(c.Attrs, &T{}) — each changes the emitted column clause — is also consulted (sqlx.Has on the attributes of both columns, directly or in a package-local helper) by the differ's ColumnChange; an attribute the differ never looks at can be added or removed in the desired schema without any change being planned"
+
+func checkColumnAttrCoverage(c *Ctx, rule string) {
+	w := c.Func(rule, pSqlite, "state", "column")
+	d := c.Func(rule, pSqlite, "diff", "ColumnChange")
+	if w == nil || d == nil {
+		return
+	}
+	// attribute types consulted through sqlx.Has(<x>.Attrs, &T{}) in fn and its package-local callees
+	collect := func(fi *FuncInfo) map[string]token.Pos {
+		out := map[string]token.Pos{}
+		seen := map[*types.Func]bool{}
+		var visit func(f *FuncInfo, depth int)
+		visit = func(f *FuncInfo, depth int) {
+			if f == nil || f.Decl.Body == nil || seen[f.Obj] || depth > 2 {
+				return
+			}
+			seen[f.Obj] = true
+			info := f.Info()
+			ast.Inspect(f.Decl.Body, func(m ast.Node) bool {
+				call, ok := m.(*ast.CallExpr)
+				if !ok {
+					return true
+				}
+				fn := calleeOf(info, call)
+				if fn == nil {
+					return true
+				}
+				if funcIs(fn, pSqlx, "", "Has") && len(call.Args) == 2 && strings.HasSuffix(types.ExprString(call.Args[0]), ".Attrs") {
+					if nt := namedOf(derefType(info.TypeOf(call.Args[1]))); nt != nil {
+						if _, dup := out[nt.Obj().Name()]; !dup {
+							out[nt.Obj().Name()] = call.Pos()
+						}
+					}
+				}
+				if fn.Pkg() != nil && fn.Pkg().Path() == pSqlite {
+					visit(c.FuncInfoOf(fn), depth+1)
+				}
+				return true
+			})
+		}
+		visit(fi, 0)
+		return out
+	}
+	written, compared := collect(w), collect(d)
+	if len(written) < 2 {
+		c.Unresolved(rule, "attribute types consulted by sqlite.(state).column (fewer than 2)")
+		return
+	}
+	c.funcs[w.Name], c.funcs[d.Name] = true, true
+	var names []string
+	for k := range written {
+		names = append(names, k)
+	}
+	sort.Strings(names)
+	for _, k := range names {
+		_, ok := compared[k]
+		c.Check(rule, "sqlite|column writer consults "+k+" ⇒ ColumnChange compares it", written[k], ok, "sqlite.(state).column emits a different column clause depending on the %s attribute, but sqlite.(diff).ColumnChange (and its helpers) never consults it: adding or removing it in the desired schema plans nothing and the database never converges to it", k)
+	}
+}
